@@ -363,6 +363,8 @@ def interleaved(run, rng, n):
             c = {"kind": kind, "func": func, "dtype": dt, "vals": vals, "labels": [rng.randrange(3) for _ in range(m)], "chunks": chunks,
                  "method": rng.choice([None, "map-reduce", "cohorts"]) if chunks and kind == "reduce" else None,
                  "deferred": bool(chunks) and rng.random() < 0.6}
+            if dt in ("uint8", "bool"):
+                c["fill_value"] = 0          # a negative fill cannot be stored in an unsigned result (NumPy itself refuses it)
             if func == "var":
                 c["ddof"] = rng.choice([0, 1])
             if kind == "reduce" and rng.random() < 0.2 and func in ("sum", "nansum", "max", "nanmax"):
@@ -379,14 +381,14 @@ def interleaved(run, rng, n):
                         lazy[i] = r
                     else:
                         got[i] = H.canon(H.compute(r))
-                except (ValueError, NotImplementedError) as e:
+                except (ValueError, NotImplementedError, OverflowError) as e:
                     got[i] = ["refused", type(e).__name__]
             order = list(lazy)
             rng.shuffle(order)
             for i in order:
                 try:
                     got[i] = H.canon(H.compute(lazy[i]))
-                except (ValueError, NotImplementedError) as e:
+                except (ValueError, NotImplementedError, OverflowError) as e:
                     got[i] = ["refused", type(e).__name__]
                 except Exception as e:  # noqa: BLE001
                     got[i] = ["internal error", repr(e)[:200]]
